@@ -75,6 +75,21 @@ def main():
         except Exception as e:  # noqa: BLE001
             sel.append("err:" + type(e).__name__)
     out["metric_choice"] = sel
+    # 5. a metric that has to be interpolated along TWO axes at once (cell centre -> corner): the order of the two
+    #    1-D interpolations must not follow a set's iteration order (non-dyadic values: the last bit shows the order)
+    n = 4
+    cds = xr.Dataset(coords={"xc": ("xc", np.arange(n) + 0.5), "xg": ("xg", np.arange(n) * 1.0),
+                             "yc": ("yc", np.arange(n) + 0.5), "yg": ("yg", np.arange(n) * 1.0)})
+    cds["area"] = (("xc", "yc"), np.sqrt(np.arange(2.0, 2.0 + n * n)).reshape(n, n) / 3.0)
+    cg = xgcm.Grid(cds, coords={"X": {"center": "xc", "left": "xg"}, "Y": {"center": "yc", "left": "yg"}},
+                   periodic=False, boundary="extend", metrics={("X", "Y"): ["area"]}, autoparse_metadata=False)
+    corner = xr.DataArray(np.ones((n, n)), dims=["xg", "yg"])
+    import warnings
+    with warnings.catch_warnings():
+        warnings.simplefilter("ignore")
+        m = cg.get_metric(corner, ("X", "Y"))
+        il = cg.interp_like(cds["area"], corner, "extend", None)
+    out["two_axis_interp"] = [[float(v).hex() for v in np.asarray(x.transpose("xg", "yg").values).reshape(-1)] for x in (m, il)]
     print(json.dumps(out, sort_keys=True))
 
 
